@@ -852,6 +852,9 @@ int verify_file(const char *path, const model_t *m, const verify_opts_t *o) {
 typedef struct { uint64_t h; size_t n; uint64_t *seq; size_t cap; } hash_coll_t;
 static int g_keep_seq;
 void dump_keep_sequences(int on) { g_keep_seq = on; }
+/* damaged originals: the copy may hold more than the reader reaches, and what the reader cannot read is not compared */
+static int g_prefix_lenient;
+void dump_prefix_lenient(int on) { g_prefix_lenient = on; }
 static void coll_item(hash_coll_t *c) {
     if (g_keep_seq) {
         if (c->n == c->cap) { c->cap = c->cap ? c->cap * 2 : 32; c->seq = realloc(c->seq, c->cap * sizeof(uint64_t)); }
@@ -1328,6 +1331,7 @@ int verify_prefix_ex(struct jls_rd_s *rd, const model_t *m, const char *prop, rn
 
 static int seq_prefix(size_t na, const uint64_t *sa, uint64_t ha, size_t nb, const uint64_t *sb, uint64_t hb) {
     /* 0: equal, 1: a is a proper prefix of b, -1: neither */
+    if (na == nb && g_prefix_lenient) return (na == 0 || (sa && sb && sa[na - 1] == sb[na - 1])) ? 0 : -1;   /* the final hash also covers the return code of the iteration */
     if (na == nb) return ha == hb ? 0 : -1;
     if (na > nb) return -1;
     if (na == 0) return 1;
@@ -1342,36 +1346,51 @@ int dump_compare_prefix(const dump_t *a, const dump_t *b, const char *path_a, co
     if (a->h_sources != b->h_sources) { snprintf(key, sizeof(key), "%s|sources", kp); v_violation(prop, key, NULL, "sources differ"); bad++; }
     int r = seq_prefix(a->n_user, a->seq_user, a->h_user, b->n_user, b->seq_user, b->h_user);
     if (r < 0) { snprintf(key, sizeof(key), "%s|user-data", kp); v_violation(prop, key, NULL, "user data of the original (%zu items) is not a prefix of the copy's (%zu items)", a->n_user, b->n_user); bad++; }
-    else if (r > 0) { snprintf(key, sizeof(key), "%s|copy-has-more|user-data|%s", kp, b->n_user - a->n_user == 1 ? "one" : "several"); v_violation(prop, key, NULL, "the copy holds %zu user-data items, the reopened original %zu", b->n_user, a->n_user); bad++; }
+    else if (r > 0 && !g_prefix_lenient) { snprintf(key, sizeof(key), "%s|copy-has-more|user-data|%s", kp, b->n_user - a->n_user == 1 ? "one" : "several"); v_violation(prop, key, NULL, "the copy holds %zu user-data items, the reopened original %zu", b->n_user, a->n_user); bad++; }
     struct jls_rd_s *ra = NULL, *rb = NULL;
     for (int i = 0; i < 256; ++i) {
         if (!a->present[i] && !b->present[i]) continue;
         if (a->present[i] != b->present[i]) { snprintf(key, sizeof(key), "%s|signal-set", kp); v_violation(prop, key, NULL, "signal %d present in one file only", i); bad++; continue; }
         r = seq_prefix(a->n_anno[i], a->seq_anno[i], a->h_anno[i], b->n_anno[i], b->seq_anno[i], b->h_anno[i]);
         if (r < 0) { snprintf(key, sizeof(key), "%s|annotations", kp); v_violation(prop, key, NULL, "signal %d: annotations of the original (%zu) are not a prefix of the copy's (%zu)", i, a->n_anno[i], b->n_anno[i]); bad++; }
-        else if (r > 0) { snprintf(key, sizeof(key), "%s|copy-has-more|annotations|%s", kp, b->n_anno[i] - a->n_anno[i] == 1 ? "one" : "several"); v_violation(prop, key, NULL, "signal %d: the copy holds %zu annotations, the reopened original %zu", i, b->n_anno[i], a->n_anno[i]); bad++; }
+        else if (r > 0 && !g_prefix_lenient) { snprintf(key, sizeof(key), "%s|copy-has-more|annotations|%s", kp, b->n_anno[i] - a->n_anno[i] == 1 ? "one" : "several"); v_violation(prop, key, NULL, "signal %d: the copy holds %zu annotations, the reopened original %zu", i, b->n_anno[i], a->n_anno[i]); bad++; }
         r = seq_prefix(a->n_utc[i], a->seq_utc[i], a->h_utc[i], b->n_utc[i], b->seq_utc[i], b->h_utc[i]);
         if (r < 0) { snprintf(key, sizeof(key), "%s|utc", kp); v_violation(prop, key, NULL, "signal %d: UTC entries of the original (%zu) are not a prefix of the copy's (%zu)", i, a->n_utc[i], b->n_utc[i]); bad++; }
-        else if (r > 0) { snprintf(key, sizeof(key), "%s|copy-has-more|utc", kp); v_violation(prop, key, NULL, "signal %d: the copy holds %zu UTC entries, the reopened original %zu", i, b->n_utc[i], a->n_utc[i]); bad++; }
+        else if (r > 0 && !g_prefix_lenient) { snprintf(key, sizeof(key), "%s|copy-has-more|utc", kp); v_violation(prop, key, NULL, "signal %d: the copy holds %zu UTC entries, the reopened original %zu", i, b->n_utc[i], a->n_utc[i]); bad++; }
         if (a->length[i] <= 0 && b->length[i] <= 0) continue;
         if (skip_fsr && skip_fsr[i]) continue;
+        if (a->length[i] > b->length[i] && g_prefix_lenient) {
+            /* tolerated when the original cannot read the samples the copy lacks */
+            if (!ra && (jls_rd_open(&ra, path_a) || jls_rd_open(&rb, path_b))) break;
+            struct jls_signal_def_s d0; int64_t ln = a->length[i] - b->length[i];
+            if (ln > 65536) ln = 65536;
+            if (!jls_rd_signal(ra, (uint16_t) i, &d0)) {
+                const dtype_t *t0 = dtype_by_code(d0.data_type);
+                uint8_t *x0 = calloc(rd_buf_bytes(t0, ln) + 1, 1);
+                int32_t r0 = jls_rd_fsr(ra, (uint16_t) i, b->length[i], x0, ln);
+                free(x0);
+                if (r0) continue;
+            }
+        }
         if (a->length[i] > b->length[i]) { snprintf(key, sizeof(key), "%s|copy-shorter", kp); v_violation(prop, key, NULL, "signal %d: copy has %lld samples, the reopened original %lld", i, (long long) b->length[i], (long long) a->length[i]); bad++; continue; }
         /* common prefix must read the same */
         if (!ra && (jls_rd_open(&ra, path_a) || jls_rd_open(&rb, path_b))) break;
         struct jls_signal_def_s def;
         if (jls_rd_signal(ra, (uint16_t) i, &def)) continue;
-        if (a->length[i] < b->length[i]) {
+        if (a->length[i] < b->length[i] && !g_prefix_lenient) {
             snprintf(key, sizeof(key), "%s|copy-has-more|samples|%s", kp, b->length[i] - a->length[i] <= (int64_t) def.samples_per_data ? "one-block" : "several-blocks");
             v_violation(prop, key, NULL, "signal %d: the copy has %lld samples, the reopened original %lld (block = %u)", i, (long long) b->length[i], (long long) a->length[i], def.samples_per_data); bad++;
         }
         const dtype_t *t = dtype_by_code(def.data_type);
         int64_t n = a->length[i], pos = 0;
         while (pos < n && t) {
-            int64_t ln = n - pos > 65536 ? 65536 : n - pos;
+            int64_t wmax = g_prefix_lenient ? (def.samples_per_data ? def.samples_per_data : 16) : 65536;
+            int64_t ln = n - pos > wmax ? wmax : n - pos;
             size_t nb = rd_buf_bytes(t, ln);
             uint8_t *xa = calloc(nb + 1, 1), *xb = calloc(nb + 1, 1);
             int32_t r1 = jls_rd_fsr(ra, (uint16_t) i, pos, xa, ln), r2 = jls_rd_fsr(rb, (uint16_t) i, pos, xb, ln);
             int same = r1 == r2 && (r1 || bits_equal(xa, 0, xb, 0, ln * t->bits, NULL));
+            if (g_prefix_lenient && r1) same = 1;   /* the original cannot read this window: nothing to compare */
             free(xa); free(xb);
             if (!same) { snprintf(key, sizeof(key), "%s|samples|%s", kp, r1 && !r2 ? "original-read-error" : (!r1 && r2 ? "copy-read-error" : (r1 ? "both-error-differently" : "values"))); v_violation(prop, key, NULL, "signal %d: samples [%lld,+%lld) read differently from original and copy (rc %d vs %d)", i, (long long) pos, (long long) ln, r1, r2); bad++; break; }
             pos += ln;
